@@ -64,6 +64,22 @@ ASSUMPTIONS = ["a block without terminating instruction falls through to the nex
                "misaligned pins on aligned architectures are outside the lattice"]
 
 BASE = 0x100
+UPDATE_LIMIT = 64        # label-offset updates tolerated during one assembly (terminating runs of the lattice need < 20)
+
+
+class Diverges(Exception):
+    """asmblock_final keeps moving labels: the fixed point is not reached within UPDATE_LIMIT offset updates"""
+
+
+def _guard(loc_db, counter):
+    orig = loc_db.set_location_offset
+
+    def counted(loc_key, offset, force=False):
+        counter[0] += 1
+        if counter[0] > UPDATE_LIMIT:
+            raise Diverges("more than %d label offset updates" % UPDATE_LIMIT)
+        return orig(loc_key, offset, force)
+    loc_db.set_location_offset = counted
 
 # element: ("i", template, decoded mnemonic, uses label, [(size, reach)])  |  ("d", template, size)
 # reach: None = always, "rel8" = signed 8-bit displacement from the end of the instruction
@@ -368,6 +384,7 @@ def cases_of(prog, par):
 # miasm access
 
 _M = {}
+_LAST_UPDATES = [0]
 
 
 def _machine(arch):
@@ -466,8 +483,15 @@ def evaluate(prog, pins, ikind, itv, witness, parsed=None):
     for i, addr in pins.items():
         loc_db.set_location_offset(keys[i], addr)
     dst = interval([tuple(itv)]) if itv else None
+    counter = [0]
+    _guard(loc_db, counter)
     try:
         patches = asmblock.asm_resolve_final(m.mn, cfg, dst)
+    except Diverges as e:
+        # deterministic stand-in for "does not terminate" (no wall clock involved)
+        bad("does-not-terminate", "asmblock_final never reaches its fixed point (%s)%s" % (
+            e, "" if witness is None else "; the layout %s exists" % {labs[i]: hex(x) for i, x in enumerate(witness["addr"])}))
+        return vs, "diverge"
     except Exception as e:
         if witness is not None:
             bad("feasible-but-raised:%s:%s" % (type(e).__name__, _slug(e)),
@@ -475,6 +499,7 @@ def evaluate(prog, pins, ikind, itv, witness, parsed=None):
                     type(e).__name__, e, {labs[i]: hex(x) for i, x in enumerate(witness["addr"])}))
         return vs, "raise"
 
+    _LAST_UPDATES[0] = counter[0]
     # ---- patches returned
     image = {}
     overl = None
@@ -570,7 +595,8 @@ def _shard(args):
     par = BOUNDS[tier][arch]
     prog = programs(arch, par)[idx]
     st = {"n": 0, "nontrivial": 0, "feasible": 0, "raise": 0, "patches": 0, "feasible_and_patches": 0, "infeasible_and_raise": 0,
-          "infeasible_but_patches": 0, "parse": 0, "pinned_mid_or_tail": 0, "two_pins_same_chain": 0, "bounded_interval": 0}
+          "infeasible_but_patches": 0, "parse": 0, "pinned_mid_or_tail": 0, "two_pins_same_chain": 0, "bounded_interval": 0, "diverge": 0,
+          "max_offset_updates": 0}
     vs = []
     try:
         pristine = parse(prog)
@@ -593,8 +619,11 @@ def _shard(args):
             st["patches"] += 1
             st["feasible_and_patches"] += 1 if w is not None else 0
             st["infeasible_but_patches"] += 1 if w is None else 0
+        elif tag == "diverge":
+            st["diverge"] += 1
         else:
             st["parse"] += 1
+        st["max_offset_updates"] = max(st["max_offset_updates"], _LAST_UPDATES[0])
         if len(vs) < 300:
             vs += r
     sample = {"arch": arch, "text": text_of(prog)} if idx % 37 == 5 else None
@@ -618,7 +647,7 @@ def run(ctx):
     samples = []
     for st, vs, sample in res:
         for k, v in st.items():
-            tot[k] = tot.get(k, 0) + v
+            tot[k] = max(tot.get(k, 0), v) if k.startswith("max_") else tot.get(k, 0) + v
         ctx.add_violations(vs)
         if sample and len(samples) < 5:
             samples.append(sample)
